@@ -53,9 +53,9 @@ impl<'l, Data> EventLoop<'l, Data> {
 //@ rw R10 1/2 <<self.handle.inner.sources.borrow()>> => <<sources_at_lookup>>
 //@ rw R10 2/2 <<self.handle.inner.sources.borrow()>> => <<sources>>
 //@ rw R10 1 <<self.handle.inner.sources.borrow_mut()>> => <<sources>>
-//@ rw R10 2 <<&mut self.handle.inner.poll.borrow_mut()>> => <<&mut *poll>>
-//@ rw R10 1 <<= self.handle.inner.poll.borrow_mut();>> => <<= &mut *poll;>>
-//@ rw R10 3 <<self .handle .inner .sources_with_additional_lifecycle_events .borrow_mut()>> => <<*extra>>
+//@ rw R10 * <<&mut self.handle.inner.poll.borrow_mut()>> => <<&mut *poll>>
+//@ rw R10 * <<= self.handle.inner.poll.borrow_mut();>> => <<= &mut *poll;>>
+//@ rw R10 * <<self .handle .inner .sources_with_additional_lifecycle_events .borrow_mut()>> => <<*extra>>
 //@ closure <<|entry| entry.source.clone()>>
 -> (c: Option<Rc<dyn EventDispatcher<Data> + 'l>>) ensures c == entry.disp()
 //@ closure <<|entry| entry.source.is_none()>>
@@ -96,12 +96,12 @@ fn dispatch_events_per_event_body(&mut self, sources_at_lookup: &SourceList<'l, 
     let ghost sources0 = *sources;
     let ghost extra0 = *extra;
     proof { broadcast use RegistrationToken::lemma_of, TokenInner::lemma_forget_idem, TokenInner::lemma_forget; }
-//@ before <<let mut ret =>>
-            // C09 ("...including when event processing returns an error"): the cell is reset BEFORE a processing
+//@ after <<let result = disp.process_events(>>
+            let ghost res0 = result;
+//@ before <<result?>>
+            // C09 / C15 ("...including when event processing returns an error"): the cell is reset BEFORE a processing
             // error can be propagated out of this body (defect F3, fixed in 0605ec0)
             assert(reset_done); /*@props C09,C15*/
-//@ after <<let mut ret =>>
-            let ghost ret0 = ret;
 //@ after <<.pending_action .replace(PostAction::Continue)>>
             proof { reset_done = true; }
 //@ before <<match ret {>>
@@ -109,7 +109,7 @@ fn dispatch_events_per_event_body(&mut self, sources_at_lookup: &SourceList<'l, 
             // can never be carried over to a later event or to another source
             assert(reset_done); /*@props C09*/
             // C09: an explicit non-Continue return takes precedence over whatever was deferred
-            assert(!(ret0 is Continue) ==> ret == ret0); /*@props C09*/
+            assert(res0 matches Ok(a0) ==> (!(a0 is Continue) ==> ret == a0)); /*@props C09,C06*/
             // C01/C09/C14: every action below is applied to the source the event belongs to: the lookup key and the
             // registration token handed to reregister/unregister are the event token with the sub-id cleared
             assert(reg_token == event.token.inner.forget()); /*@props C01,C09,C14,C07*/
@@ -129,9 +129,9 @@ fn dispatch_events_per_event_body(&mut self, sources_at_lookup: &SourceList<'l, 
 //@ rw R10 1/2 <<self.handle.inner.sources.borrow()>> => <<sources_at_lookup>>
 //@ rw R10 2/2 <<self.handle.inner.sources.borrow()>> => <<sources>>
 //@ rw R10 1 <<self.handle.inner.sources.borrow_mut()>> => <<sources>>
-//@ rw R10 2 <<&mut self.handle.inner.poll.borrow_mut()>> => <<&mut *poll>>
-//@ rw R10 1 <<= self.handle.inner.poll.borrow_mut();>> => <<= &mut *poll;>>
-//@ rw R10 3 <<self .handle .inner .sources_with_additional_lifecycle_events .borrow_mut()>> => <<*extra>>
+//@ rw R10 * <<&mut self.handle.inner.poll.borrow_mut()>> => <<&mut *poll>>
+//@ rw R10 * <<= self.handle.inner.poll.borrow_mut();>> => <<= &mut *poll;>>
+//@ rw R10 * <<self .handle .inner .sources_with_additional_lifecycle_events .borrow_mut()>> => <<*extra>>
 //@ closure <<|entry| entry.source.clone()>>
 -> (c: Option<Rc<dyn EventDispatcher<Data> + 'l>>) ensures c == entry.disp()
 //@ closure <<|entry| entry.source.is_none()>>
